@@ -418,6 +418,9 @@ impl<'a> Compiler<'a> {
                 .find(|(import, _)| *import == function)
             {
                 let (super_depth, suffix) = super_depth(alias);
+                if super_depth > self.current_namespace.len() {
+                    return Err(self.error(CompilationErrorPayload::SuperLimitReached));
+                }
                 let name = self
                     .current_namespace
                     .iter()
@@ -439,6 +442,9 @@ impl<'a> Compiler<'a> {
                 {
                     // namespace.alias.suffix
                     let (super_depth, s) = super_depth(alias);
+                    if super_depth > self.current_namespace.len() {
+                        return Err(self.error(CompilationErrorPayload::SuperLimitReached));
+                    }
 
                     let name = self
                         .current_namespace
